@@ -44,6 +44,20 @@ fn render(ay: &mut AymPrecise, n: usize) -> Result<(Vec<f64>, Vec<f64>), String>
         if !s.left.is_finite() || !s.right.is_finite() || s.left.abs() > 4.0 || s.right.abs() > 4.0 {
             return Err(format!("sample {} is not finite/bounded: left {} right {}", i, s.left, s.right));
         }
+        // the integer presentations of a sample are the full-scale product clipped to the type's
+        // range (what a player writes into an i16 buffer): louder never means smaller
+        for v in [s.left, s.right] {
+            use aym::AySample;
+            let w16 = (32767.0 * v).clamp(-32768.0, 32767.0) as i16;
+            let w8 = (127.0 * v).clamp(-128.0, 127.0) as i8;
+            let w32 = (2147483647.0 * v).clamp(-2147483648.0, 2147483647.0) as i32;
+            if v.to_i16() != w16 || v.to_i8() != w8 || (v.to_i32() as i64 - w32 as i64).abs() > 1 {
+                return Err(format!(
+                    "sample {} = {}: to_i16/to_i8/to_i32 give {}/{}/{}, the clipped full-scale products are {}/{}/{}",
+                    i, v, v.to_i16(), v.to_i8(), v.to_i32(), w16, w8, w32
+                ));
+            }
+        }
         l.push(s.left);
         r.push(s.right);
     }
@@ -634,7 +648,7 @@ pub fn replay(run: &mut Run, phase: &str, case: &serde_json::Value) -> Result<()
 }
 
 pub const LEVEL: &str = "exploration";
-pub const RULE: &str = "generated (chip AY/YM, chip clock 1.0..2.0 MHz, sample rate 8..384 kHz, stereo mode) x register programmes, judged by signal features: tone = level-crossing count with 25 % hysteresis over >= 20 periods against f_clk/(16*TP) (TP = 0 as 1; judged where f <= fs/4; tolerance 2.5 crossings + 0.4 %), with the register write order permuted; noise = transition rate about half of f_clk/(16*NP) and halving when NP doubles; envelope = for each of the 16 shapes the level at 1/4, 1/2, 3/4 of each of the first four ramps of length 256*EP/f_clk must be strictly falling / rising / at minimum / at maximum as the documented pattern says; volume = DC level strictly increasing over the 16 volumes; mixer = gated-off sources leave a flat line; panning = left/right levels per the mode table; every sample of arbitrary write/generate interleavings finite and |s| <= 4; through the ports: read-back of the selected register (at most masked to its implemented bits), register numbers modulo 16; ports-to-sound: a history of (select, data) OUTs executed by the emulated CPU (biased to R13, volume/mixer registers and to values already held) with 0..1500 samples pulled from the chip after each write must give sample-for-sample the signal of the same register history written directly to the chip with the machine's clock, rate and stereo mode. non-trivial = a judged tone (distinct (TP, channel)), judged noise pair, judged envelope (distinct (shape, EP)), levels case, random programme with >= 2 volume/envelope writes, port history with register numbers above 15, ports-to-sound history of >= 4 writes with a non-zero sample";
+pub const RULE: &str = "generated (chip AY/YM, chip clock 1.0..2.0 MHz, sample rate 8..384 kHz, stereo mode) x register programmes, judged by signal features: tone = level-crossing count with 25 % hysteresis over >= 20 periods against f_clk/(16*TP) (TP = 0 as 1; judged where f <= fs/4; tolerance 2.5 crossings + 0.4 %), with the register write order permuted; noise = transition rate about half of f_clk/(16*NP) and halving when NP doubles; envelope = for each of the 16 shapes the level at 1/4, 1/2, 3/4 of each of the first four ramps of length 256*EP/f_clk must be strictly falling / rising / at minimum / at maximum as the documented pattern says; volume = DC level strictly increasing over the 16 volumes; mixer = gated-off sources leave a flat line; panning = left/right levels per the mode table; every sample of arbitrary write/generate interleavings finite and |s| <= 4, and its i8/i16/i32 presentations equal to the clipped full-scale product; through the ports: read-back of the selected register (at most masked to its implemented bits), register numbers modulo 16; ports-to-sound: a history of (select, data) OUTs executed by the emulated CPU (biased to R13, volume/mixer registers and to values already held) with 0..1500 samples pulled from the chip after each write must give sample-for-sample the signal of the same register history written directly to the chip with the machine's clock, rate and stereo mode. non-trivial = a judged tone (distinct (TP, channel)), judged noise pair, judged envelope (distinct (shape, EP)), levels case, random programme with >= 2 volume/envelope writes, port history with register numbers above 15, ports-to-sound history of >= 4 writes with a non-zero sample";
 pub const ASSUMPTIONS: &[&str] = &[
     "tolerances are stated in the rule; tone pitch is judged only below fs/4 and an envelope only when a ramp spans >= 96 samples and the run fits in 500k samples",
     "panning table is the one in the aym crate's own documentation; volume 0 is silent",
